@@ -259,6 +259,8 @@ class InstCanon:
                 return (('unchanged', role), not o)
         if a[0] == 'variant' and len(a) == 3 and a[2] == 'Option':
             role = self.rec_child(a[1])
+            if isinstance(o, tuple) and o and o[0] == 'not' and set(o[1]) in ({'None'}, {'Some'}):
+                o = 'Some' if set(o[1]) == {'None'} else 'None'          # an Option has two variants: "not None" is Some
             if role is not None and o in ('Some', 'None'):
                 return (('unchanged', role), o == 'None')
         return None
